@@ -280,6 +280,20 @@ def main(chk):
   if specs['x'] != P() or specs['n'] != P() or specs['s'] != P() or specs['p'] != P('a', None):
     chk.violation('C19:unboxed', f'get_partition_spec of a tree mixing boxed and unboxed (jax / numpy / shape struct) leaves: {specs}; unboxed arrays '
                                  'get the replicated spec', {})
+  # ... in both APIs, and for every rank including rank 0 (step counters, scalar gains) and empty arrays
+  for rank_name, arr in (('rank-0', jnp.zeros(())), ('rank-1', jnp.zeros((3,))), ('empty', jnp.zeros((0, 2))), ('numpy rank-0', np.zeros((), np.float32))):
+    chk.count(('C19:unboxed', rank_name))
+    got_l = nn.get_partition_spec({'v': arr})['v']
+
+    class Holder(nnx.Module):
+      def __init__(self):
+        self.plain = nnx.Param(jnp.asarray(arr))
+        self.raw = jnp.asarray(arr)
+    sp = nnx.get_partition_spec(nnx.state(Holder()))
+    got_n = (sp['plain'].value if hasattr(sp['plain'], 'value') else sp['plain'], sp['raw'].value if hasattr(sp['raw'], 'value') else sp['raw'])
+    if got_l != P() or got_n != (P(), P()):
+      chk.violation(f'C19:unboxed:{rank_name}', f'get_partition_spec of an un-annotated {rank_name} array: Linen {got_l!r}, NNX (Variable, raw attribute) {got_n!r}; '
+                                                'the replicated spec PartitionSpec() is expected', {})
   chk.assumptions.append('no global mesh is active: Partitioned.unbox applies no sharding constraint')
   chk.finish(rule='all axis cases (6 boxed variables x inner axis x optional outer scan/vmap axis, incl. negative axes) in Linen and NNX; all '
                   'name tuples x rule lists of Partition.tla', exhaustive=True)
